@@ -712,6 +712,17 @@ static inline bool check_consecutive(const Operand_& o0, const Operand_& o1, con
          ((o0.id() + 3u) & 0x1Fu) == o3.id();
 }
 
+// a64::Assembler - Element Index
+// ==============================
+
+// Returns a bit-mask of the register operands that carry an element index (bit N describes operand N).
+static inline uint32_t element_index_ops(const Operand_& o0, const Operand_& o1, const Operand_& o2, const Operand_& o3) noexcept {
+  return (uint32_t(o0.is_reg() && o0.as<Vec>().has_element_index()) << 0) |
+         (uint32_t(o1.is_reg() && o1.as<Vec>().has_element_index()) << 1) |
+         (uint32_t(o2.is_reg() && o2.as<Vec>().has_element_index()) << 2) |
+         (uint32_t(o3.is_reg() && o3.as<Vec>().has_element_index()) << 3) ;
+}
+
 // a64::Assembler - CheckReg
 // =========================
 
@@ -815,6 +826,10 @@ Error Assembler::_emit(InstId inst_id, const Operand_& o0, const Operand_& o1, c
 
   uint32_t multiple_op_data[4];
   uint32_t multiple_op_count;
+
+  // Bit-mask of operands whose element index is consumed by the instruction form (SIMD only). An element
+  // index on any other register operand cannot be encoded and is refused by the shared EmitOp_Rd0... tails.
+  uint32_t indexed_ops = 0;
 
   // These are only used when instruction uses a relative displacement.
   OffsetFormat offset_format;     // Offset format.
@@ -3021,6 +3036,7 @@ Case_BaseLdurStur:
             goto InvalidElementIndex;
 
           uint32_t hlm = element_index << sz;
+          indexed_ops = B(2);
           opcode.add_imm(q, 30);
           opcode.add_imm(hlm & 3u, 20);
           opcode.add_imm(hlm >> 2, 11);
@@ -3194,6 +3210,7 @@ Case_BaseLdurStur:
             goto InvalidElementIndex;
 
           uint32_t hl = element_index << hl_field_shift;
+          indexed_ops = B(2);
 
           opcode.reset(op_data.element_op());
           opcode.add_imm(q, 30);
@@ -3473,6 +3490,7 @@ Case_BaseLdurStur:
           if (element_index > 7u)
             goto InvalidElementIndex;
 
+          indexed_ops = B(2);
           opcode.reset(op_data.element_op());
           opcode.add_imm(q, 30);
           opcode.add_imm(element_index & 3u, 20);
@@ -3505,6 +3523,7 @@ Case_BaseLdurStur:
             // Special case.
             if (!x || !o1.as<Vec>().is_vec_d2() || o1.as<Vec>().element_index() != 1)
               goto InvalidInstruction;
+            indexed_ops = B(1);
             type = 0b10;
             r_mode_op = 0b01110;
           }
@@ -3545,6 +3564,7 @@ Case_BaseLdurStur:
             // Special case.
             if (!x || !o0.as<Vec>().is_vec_d2() || o0.as<Vec>().element_index() != 1)
               goto InvalidInstruction;
+            indexed_ops = B(0);
             type = 0b10;
             r_mode_op = 0b01111;
           }
@@ -3840,6 +3860,7 @@ Case_BaseLdurStur:
           if (o2.as<Reg>().id() > lmh.max_rm_id)
             goto InvalidPhysId;
 
+          indexed_ops = B(2);
           opcode.reset(uint32_t(op_data.element_op) << 10);
           opcode.add_imm(size_op.qs(), 30);
           opcode.add_imm(size_op.scalar(), 28);
@@ -4107,6 +4128,7 @@ Case_BaseLdurStur:
           if (o2.as<Reg>().id() > lmh.max_rm_id)
             goto InvalidPhysId;
 
+          indexed_ops = B(2);
           opcode.reset(uint32_t(op_data.element_op) << 10);
           opcode.add_imm(q, 30);
           opcode.add_imm(lmh.lm, 20);
@@ -4153,6 +4175,8 @@ Case_BaseLdurStur:
           goto InvalidInstruction;
 
         uint32_t dst_index = o1.as<Vec>().element_index();
+        indexed_ops = B(1);
+
         if (!o0.as<Vec>().has_element_type()) {
           // DUP - Vec (scalar) <- Vec[N].
           uint32_t lsb_index = diff(o0.as<Reg>().reg_type(), RegType::kVec8);
@@ -4206,6 +4230,8 @@ Case_BaseLdurStur:
         uint32_t imm5 = ((dst_index << 1) | 1u) << lsb_index;
         if (imm5 > 31)
           goto InvalidElementIndex;
+
+        indexed_ops = B(0) | B(1);
 
         if (o1.as<Reg>().is_gp()) {
           // INS - Vec[N] <- GP register.
@@ -4511,6 +4537,7 @@ Case_BaseLdurStur:
           if (imm2 > 3)
             goto InvalidElementIndex;
 
+          indexed_ops = B(2);
           opcode.reset(uint32_t(op_data.opcode) << 10);
           opcode.add_imm(imm2, 12);
           goto EmitOp_Rd0_Rn5_Rm16;
@@ -4552,6 +4579,7 @@ Case_BaseLdurStur:
 
         uint32_t imm5 = (1u | (element_index << 1)) << size_op.size();
 
+        indexed_ops = B(1);
         opcode.reset(uint32_t(op_data.opcode) << 10);
         opcode.add_imm(x, 30);
         opcode.add_imm(imm5, 16);
@@ -4958,7 +4986,8 @@ Case_SimdLdurStur:
         if (n != op_data.n)
           goto InvalidInstruction;
 
-        // LDx/STx (single structure).
+        // LDx/STx (single structure) - all registers of the list carry the same element index.
+        indexed_ops = 0xFu;
         static const uint8_t opc_s_size_by_sz_table[] = { 0x0u << 3, 0x2u << 3, 0x4u << 3, (0x4u << 3) | 1u };
 
         opcode.reset(uint32_t(op_data.single_op) << 10);
@@ -5030,6 +5059,9 @@ Case_SimdLdurStur:
   // --------------------------------------------------------------------------
 
 EmitOp_Rd0:
+  if (element_index_ops(o0, o1, o2, o3) & ~indexed_ops)
+    goto InvalidInstruction;
+
   if (!check_valid_regs(o0))
     goto InvalidPhysId;
 
@@ -5037,6 +5069,9 @@ EmitOp_Rd0:
   goto EmitOp;
 
 EmitOp_Rn5:
+  if (element_index_ops(o0, o1, o2, o3) & ~indexed_ops)
+    goto InvalidInstruction;
+
   if (!check_valid_regs(o0))
     goto InvalidPhysId;
 
@@ -5044,6 +5079,9 @@ EmitOp_Rn5:
   goto EmitOp;
 
 EmitOp_Rn5_Rm16:
+  if (element_index_ops(o0, o1, o2, o3) & ~indexed_ops)
+    goto InvalidInstruction;
+
   if (!check_valid_regs(o0, o1))
     goto InvalidPhysId;
 
@@ -5052,6 +5090,9 @@ EmitOp_Rn5_Rm16:
   goto EmitOp;
 
 EmitOp_Rd0_Rn5:
+  if (element_index_ops(o0, o1, o2, o3) & ~indexed_ops)
+    goto InvalidInstruction;
+
   if (!check_valid_regs(o0, o1))
     goto InvalidPhysId;
 
@@ -5060,6 +5101,9 @@ EmitOp_Rd0_Rn5:
   goto EmitOp;
 
 EmitOp_Rd0_Rn5_Rm16_Ra10:
+  if (element_index_ops(o0, o1, o2, o3) & ~indexed_ops)
+    goto InvalidInstruction;
+
   if (!check_valid_regs(o0, o1, o2, o3))
     goto InvalidPhysId;
 
@@ -5070,6 +5114,9 @@ EmitOp_Rd0_Rn5_Rm16_Ra10:
   goto EmitOp;
 
 EmitOp_Rd0_Rn5_Rm16:
+  if (element_index_ops(o0, o1, o2, o3) & ~indexed_ops)
+    goto InvalidInstruction;
+
   if (!check_valid_regs(o0, o1, o2))
     goto InvalidPhysId;
 
